@@ -151,7 +151,8 @@ structure St where
 
 open SurfModel.KeyParse in
 def St.intern (st : St) (ks : List Key) : St × List Nat :=
-  ({ st with names := ks.foldl (fun acc k => (k.code, showKey k) :: acc) st.names }, ks.map Key.code)
+  ({ st with names := ks.foldl (fun acc k =>
+      if (acc.lookup k.code).isSome then acc else (k.code, showKey k) :: acc) st.names }, ks.map Key.code)
 
 def St.showChord (st : St) (c : List Nat) : String :=
   if c.isEmpty then "-" else
